@@ -65,6 +65,7 @@
 import Y0.Lemmas.CfIdcStar
 import Y0.Lemmas.CfIdcTerm
 import Y0.Lemmas.CfIdcFrag
+import Y0.Lemmas.CfIdcExch
 import Y0.Props.C07
 
 namespace Y0.Cf
@@ -195,33 +196,6 @@ theorem idcstar_fuel_irrelevant (hk : SubsetOrder kordf) (outcomes conditions : 
 
 /-! ## 2c. soundness on a named fragment -/
 
-/-- static part of the fragment, as an executable test: outcomes and conditions are dicts of FACTUAL variables of `G` with
-unstarred values, no variable name on both sides, at least one condition -/
-def fragCStaticB (G : MG Name) (O C : Event) : Bool :=
-  decide O.keys.Nodup && decide C.keys.Nodup &&
-  (O ++ C).all (fun p => decide (p.1 = Var.plain p.1.name) && decide (p.2 = ⟨p.1.name, false⟩) && decide (p.1.name ∈ G.nodes)) &&
-  O.keys.all (fun o => C.keys.all (fun c => decide (o.name ≠ c.name))) && !C.isEmpty
-
-/-- rule 2 applies to no condition (line 4 does not recurse) -/
-def noExchangeB (ordf : List World → List World) (G : MG Name) (O C : Event) : Bool :=
-  match makeCounterfactualGraph ordf G (O ++ C) with
-  | .ok (cf, some _) => (match firstExchangeable cf O.keys C.keys with | .ok none => true | _ => false)
-  | _ => true
-
-/-- ID*'s estimand for the joint event mentions exactly the event's variables: nothing was marginalised (no `Sum`, whose
-bound variable `Expression.conditional` would sum over a second time — what remains of F11) -/
-def estNamesB (ordf : List World → List World) (dordf : List Var → List Var) (G : MG Name) (O C : Event) : Bool :=
-  match idStar ordf dordf G (O ++ C) with
-  | .ok est => (exprNames est).all (fun n => decide (n ∈ (O ++ C).keys.map (·.name))) &&
-      ((O ++ C).keys.map (·.name)).all (fun n => decide (n ∈ exprNames est))
-  | .error _ => true
-
-/-- **The fragment of IDC\***: observational conditional queries `P(y | x)` (conjunctions of factual variables of `G`, unstarred
-values, outcome names ≠ condition names) on which rule 2 applies to no condition and ID* answers the joint event without
-marginalising a variable.  Decidable from the input (`inFragmentCB` runs the model's own test functions). -/
-def inFragmentCB (ordf : List World → List World) (dordf : List Var → List Var) (G : MG Name) (O C : Event) : Bool :=
-  fragCStaticB G O C && noExchangeB ordf G O C && estNamesB ordf dordf G O C
-
 def InFragmentC (ordf : List World → List World) (dordf : List Var → List Var) (G : MG Name) (O C : Event) : Prop :=
   inFragmentCB ordf dordf G O C = true
 
@@ -270,6 +244,72 @@ theorem idcstar_sound_fragment (M : Model) (ν : BaseValues) (dom : Name → Nat
     simp only [Bool.and_eq_true, List.all_eq_true, decide_eq_true_eq] at hnm
     exact fun n => ⟨hnm.1 n, hnm.2 n⟩
 
+/-! ## 2d. soundness on the exchange fragment (rule 2 applies to the condition) -/
+
+def InFragmentX (ordf : List World → List World) (G : MG Name) (O C : Event) : Prop :=
+  inFragmentXB ordf G O C = true
+
+/-- **IDC\* is sound on the exchange fragment — rule 2 of the do-calculus for functional SCMs.**  For every functional SCM `M`
+compatible with the (well-formed, loop-free) graph, with normalised noise and values bounded by `dom`, every base values `ν`
+under which the condition has POSITIVE probability: if `(outcomes, {X = x})` is in the exchange fragment and `idc_star` returns
+`e`, then `e` (read as in C07) EQUALS `P(outcomes ∧ X = x) / P(X = x)`.  No positivity of any kernel of `M` is assumed (the
+quantifier of C08 is met as it stands): the exchange `P(y | x) = P(y_x)` is proved on the noise space
+(`Fscm.prob_exchange_marginal`: consistency + independence of disjoint noise coordinates), its graphical premise is read off the
+model's d-separation verdict on the counterfactual graph (`sep_facts_of_no_path`, `MG.no_ancAdj_path_of_dSeparated`), and
+`P(y_x)` is ID*'s answer by `idstar_sound_fragment` (C07). -/
+theorem idcstar_sound_fragment_exchange (M : Model) (ν : BaseValues) (dom : Name → Nat) (hM : Compatible M G)
+    (hnorm : M.Normalised) (hdom : ∀ v ps us, M.f v ps us < dom v) (hG : G.WF) (hdl : ∀ e ∈ G.di, e.1 ≠ e.2)
+    (hbl : ∀ e ∈ G.bi, e.1 ≠ e.2) (hord : PermOrder ordf) (hdo : PermDistrict dordf)
+    (outcomes conditions : Event) (hfr : InFragmentX ordf G outcomes conditions) (e : Expr)
+    (h : idcStar ordf dordf kordf G outcomes conditions = .ok e) (hpos : 0 < probEvent M ν conditions) :
+    cden M ν dom e (fun n => ν n false) = probEvent M ν (outcomes ++ conditions) / probEvent M ν conditions := by
+  unfold InFragmentX inFragmentXB fragXStaticB at hfr
+  simp only [Bool.and_eq_true, Bool.not_eq_true', List.isEmpty_eq_false_iff, decide_eq_true_eq] at hfr
+  obtain ⟨⟨⟨hst, hOne⟩, hlen⟩, hdyn⟩ := hfr
+  have hfrC := fragC_of_static G hst
+  -- the single condition is `X = x`
+  obtain ⟨c, val, rfl⟩ : ∃ c val, conditions = [(c, val)] := by
+    match conditions, hlen with
+    | [(c, val)], _ => exact ⟨c, val, rfl⟩
+  have hc : c = Var.plain c.name := hfrC.plain (c, val) (by simp)
+  have hv : val = ⟨c.name, false⟩ := hfrC.unst (c, val) (by simp)
+  have hcond : [(c, val)] = condOf c.name := by rw [hv]; unfold condOf; rw [← hc]
+  unfold exchangeB at hdyn
+  simp only [Bool.and_eq_true] at hdyn
+  obtain ⟨hd1, hd2⟩ := hdyn
+  have hb : idcStarFuelBound G outcomes [(c, val)] = (2 * outcomes.length + G.nodes.length + 4) + 2 := by
+    unfold idcStarFuelBound; simp only [List.length_cons, List.length_nil]; omega
+  unfold idcStar at h
+  rw [hb] at h
+  rw [hcond] at h hfrC hpos ⊢
+  apply idcStarFuel_sound_fragX ordf dordf kordf G M ν dom hM (fun pmf hp => (hnorm pmf hp).2) hdom hG hdl hbl hord hdo
+    hfrC hOne ?_ ?_ _ e h (ne_of_gt hpos)
+  · intro cf nev hcg
+    rw [hcond] at hd1
+    rw [hcg] at hd1
+    simp only at hd1
+    cases hfe : firstExchangeable cf outcomes.keys (condOf c.name).keys with
+    | error err => rw [hfe] at hd1; cases hd1
+    | ok oc =>
+      rw [hfe] at hd1
+      cases oc with
+      | none => cases hd1
+      | some c' =>
+        simp only at hd1
+        refine ⟨⟨c', rfl⟩, ?_⟩
+        rw [hc, hv] at hd1
+        cases hx : exchangeOutcomes cf outcomes (Var.plain c.name) ⟨c.name, false⟩ with
+        | error err => rw [hx] at hd1; cases hd1
+        | ok no' =>
+          rw [hx] at hd1
+          simp only [decide_eq_true_eq] at hd1
+          rw [hd1]
+          rfl
+  · intro cf2 nev2 hcg2
+    rw [hcg2] at hd2
+    simp only [List.all_eq_true] at hd2
+    exact hd2
+
 /-! ## 3. vocabulary (C06, IDC* part) -/
 
 /-- every estimand IDC* returns is built from single-world interventional terms -/
@@ -299,6 +339,32 @@ example : inFragmentCB sortWorlds (sortBy Var.keyLt) (MG.fromEdges [0, 1] [(0, 1
 /-- … and `P(Y = y | X = x)` on `X → Y` is outside it (rule 2 applies: line 4 recurses) -/
 example : inFragmentCB sortWorlds (sortBy Var.keyLt) (MG.fromEdges [0, 1] [(0, 1)] [])
     [(Var.plain 1, ⟨1, false⟩)] [(Var.plain 0, ⟨0, false⟩)] = false := by decide
+
+/-- the exchange fragment is not empty: `P(Y = y | X = x)` on `X → Y` (X=0, Y=1; rule 2 applies, the answer is `P[X](Y)`), on
+`W → X → Y` (W=2), with a latent confounder of `Y` and another variable (`X → Y`, `Y ↔ Z`), and two outcomes on `X → Y → Z` -/
+example : inFragmentXB sortWorlds (MG.fromEdges [0, 1] [(0, 1)] [])
+    [(Var.plain 1, ⟨1, false⟩)] [(Var.plain 0, ⟨0, false⟩)] = true := by decide
+example : inFragmentXB sortWorlds (MG.fromEdges [0, 1, 2] [(2, 0), (0, 1)] [])
+    [(Var.plain 1, ⟨1, false⟩)] [(Var.plain 0, ⟨0, false⟩)] = true := by decide
+set_option maxRecDepth 4000 in
+example : inFragmentXB sortWorlds (MG.fromEdges [0, 1, 2] [(0, 1)] [(1, 2)])
+    [(Var.plain 1, ⟨1, false⟩)] [(Var.plain 0, ⟨0, false⟩)] = true := by decide
+example : inFragmentXB sortWorlds (MG.fromEdges [0, 1, 2] [(0, 1), (1, 2)] [])
+    [(Var.plain 1, ⟨1, false⟩), (Var.plain 2, ⟨2, false⟩)] [(Var.plain 0, ⟨0, false⟩)] = true := by decide
+/-- … the bow graph `X → Y`, `X ↔ Y` is outside it (rule 2 does not apply: it is in `InFragmentC`), and so is a confounded
+`W → X`, `W → Y`, `X → Y` -/
+example : inFragmentXB sortWorlds (MG.fromEdges [0, 1] [(0, 1)] [(0, 1)])
+    [(Var.plain 1, ⟨1, false⟩)] [(Var.plain 0, ⟨0, false⟩)] = false := by decide
+example : inFragmentXB sortWorlds (MG.fromEdges [0, 1, 2] [(2, 0), (2, 1), (0, 1)] [])
+    [(Var.plain 1, ⟨1, false⟩)] [(Var.plain 0, ⟨0, false⟩)] = false := by decide
+/-- the semantic hypotheses of `idcstar_sound_fragment_exchange` are those of `idstar_sound_fragment` (satisfied by
+`Example07.mBA2` on `B → A`, Props/C07.lean) plus a possible condition; `P(A = a | B = b)` on that graph is in the exchange
+fragment and `B = b` has probability `1/3` in that model for the base values `b = 0` -/
+example : inFragmentXB sortWorlds Example07.gBA [(Example07.A, ⟨0, false⟩)] [(Example07.B, ⟨1, false⟩)] = true := by decide
+example : probEvent Example07.mBA2 (fun _ _ => 0) [(Example07.B, ⟨1, false⟩)] = 1 / 3 := by
+  simp [probEvent, prob, space, conjunctOf, worldOf, ivValue, holds, solve, step, forced, update, Example07.mBA2,
+    Example07.B, Var.plain, List.zipIdx]
+  norm_num
 
 /-- the order the correspondence check uses for the re-associated keys satisfies the hypothesis on `kordf` -/
 example (rev : Bool) : SubsetOrder (orderDistrict rev) := subsetOrder_orderDistrict rev
